@@ -190,7 +190,7 @@ fn directed(env: &Env, target: usize, r: &mut Rng) -> Option<(Expr, &'static str
         })),
         idx: if each { vec![Idx::Each] } else { vec![] },
     };
-    let kind = r.below(9);
+    let kind = r.below(12);
     Some(match kind {
         0 => (wrap(Expr::Cmp(path, g.cmp_op(&scalar))), "lhs"),
         1 => (
@@ -306,6 +306,48 @@ fn directed(env: &Env, target: usize, r: &mut Rng) -> Option<(Expr, &'static str
             Expr::Quant(QOp::All, QArg::Path(Path::field(target))),
             "quantifier-path",
         ),
+        9 | 10 | 11 if scalar != RType::Bool && env.has_list(&scalar) && !each => {
+            // a list comparison whose left-hand side is a call that has ANOTHER
+            // list comparison in its first argument:
+            //   pick((other in $l1), target) in $l2     (9: target after the nested comparison)
+            //   pick((target in $l1), other) in $l2     (10: target inside the nested comparison)
+            //   pick((other in $l1), ids(target)) in $l2 (11: after it, one call deeper)
+            let pick = match scalar {
+                RType::Bytes => "pickb1",
+                RType::Int => "pickn1",
+                RType::Ip => "picki1",
+                _ => unreachable!(),
+            };
+            let other_name = match scalar {
+                RType::Bytes => "str_o",
+                RType::Int => "num_o",
+                _ => "ipa_o",
+            };
+            let other = Path::field(env.field(other_name).unwrap());
+            if other.base == Base::Field(target) {
+                return None;
+            }
+            let (nested_lhs, second, position) = match kind {
+                9 => (other, Arg::Path(path), "list-lhs-after-nested-list-comparison"),
+                10 => (path, Arg::Path(other), "nested-list-comparison-inside-list-lhs"),
+                _ => (other, Arg::Path(call1(path, ident_fn)), "list-lhs-call-after-nested-list-comparison"),
+            };
+            let inner = Expr::paren(Expr::Cmp(nested_lhs, CmpOp::InList(r.pick(&LIST_NAMES).to_string())));
+            let c = Call {
+                func: fname(pick),
+                args: vec![Arg::Logical(inner), second],
+            };
+            (
+                Expr::Cmp(
+                    Path {
+                        base: Base::Call(Box::new(c)),
+                        idx: vec![],
+                    },
+                    CmpOp::InList(r.pick(&LIST_NAMES).to_string()),
+                ),
+                position,
+            )
+        }
         _ => return None,
     })
 }
@@ -314,7 +356,7 @@ pub fn run(run: &Run) {
     let envs: Vec<Eng> = (0..2).map(|v| Eng::new(rich_env(v))).collect();
     let seed = run.opts.seed;
 
-    let n = run.opts.size(3_000, 250_000);
+    let n = run.opts.size(60_000, 2_000_000);
     run.parallel("random", n, |i, l| {
         let mut r = Rng::derive(seed, "c12-r", i);
         let eng = &envs[r.below(envs.len())];
@@ -345,7 +387,7 @@ pub fn run(run: &Run) {
         }
     });
 
-    let n = run.opts.size(3_000, 250_000);
+    let n = run.opts.size(60_000, 2_000_000);
     run.parallel("directed", n, |i, l| {
         let mut r = Rng::derive(seed, "c12-d", i);
         let eng = &envs[r.below(envs.len())];
@@ -404,6 +446,9 @@ pub fn run(run: &Run) {
             "list-lhs" => "pos_list_lhs",
             "list-lhs-inside-call" => "pos_list_lhs_inside_call",
             "list-inside-call-argument" => "pos_list_inside_call_argument",
+            "list-lhs-after-nested-list-comparison" => "pos_list_lhs_after_nested_list_comparison",
+            "nested-list-comparison-inside-list-lhs" => "pos_nested_list_comparison_inside_list_lhs",
+            "list-lhs-call-after-nested-list-comparison" => "pos_list_lhs_call_after_nested_list_comparison",
             _ => "pos_quantifier_path",
         });
         run.distinct(hash_str(&text));
@@ -412,7 +457,7 @@ pub fn run(run: &Run) {
         }
     });
 
-    let n = run.opts.size(1_500, 100_000);
+    let n = run.opts.size(30_000, 1_000_000);
     run.parallel("values", n, |i, l| {
         let mut r = Rng::derive(seed, "c12-v", i);
         let eng = &envs[r.below(envs.len())];
